@@ -289,7 +289,15 @@ fn judge(run: &Run, inst: &Inst, max_iter: usize, has_mle: bool) {
             let (s, info, dev, wdev) = inst.score_info(&f.coef);
             // (a) score equations at the returned coefficients, measured by the Newton decrement
             let dec = inst.decrement2(&s, &info);
-            let bound = 10.0 * inst.tol * (1.0 + wdev.abs()) + 1e-20;
+            let mut bound = 10.0 * inst.tol * (1.0 + wdev.abs()) + 1e-20;
+            if inst.fam == Fam::Gaussian {
+                // "for the Gaussian family they coincide with (weighted, ridge) least squares": the
+                // objective is quadratic, one scoring step is exact, and the decrement at the returned
+                // point is rounding-level whatever the tolerance
+                let wy2: f64 = inst.weights().iter().zip(&inst.y).enumerate().map(|(i, (w, y))| w * (y - inst.off.as_ref().map(|o| o[i]).unwrap_or(0.0)).powi(2)).sum();
+                bound = bound.min(1e-16 * (1.0 + wy2));
+                run.regime("gaussian-coincides-with-least-squares");
+            }
             match dec {
                 Some(d) if d.abs() <= bound => {
                     run.outcome(&(fam, "score-ok", acls));
@@ -510,6 +518,68 @@ pub fn run(run: &Run) {
         }
     }
     run.require_regime("large-design-with-mle");
+    // counts with a low baseline and a sharp rise at one end on a standardised degree-5 polynomial
+    // design: Fisher scoring overshoots there (the deviance goes up on some iterations), which is
+    // where "reports an error, not a wrong answer, when it has not converged" is decided
+    {
+        use rayon::prelude::*;
+        let ns: Vec<usize> = if run.thorough() { (20..=32).collect() } else { vec![20, 24, 25, 28] };
+        let peaks = [8.0, 12.0, 19.0, 25.0, 32.0, 50.0];
+        let ratios = [0.08, 0.12, 0.2, 0.3];
+        run.bound("spiky count designs", format!("n in {:?} × peak {:?} × decay {:?} × 2 ends × 3 background patterns × {{Poisson, QuasiPoisson}} × tol {{1e-5,1e-8,1e-12}}, degree-5 standardised polynomial design", ns, peaks, ratios));
+        let mut jobs: Vec<(usize, f64, f64, bool, usize)> = Vec::new();
+        for &n in &ns {
+            for &b in &peaks {
+                for &r in &ratios {
+                    for right in [false, true] {
+                        for bg in 0..3usize {
+                            jobs.push((n, b, r, right, bg));
+                        }
+                    }
+                }
+            }
+        }
+        jobs.par_iter().for_each(|&(n, b, r, right, bg)| {
+            let p = 6usize;
+            let t: Vec<f64> = (0..n).map(|i| -1.0 + 2.0 * i as f64 / (n - 1) as f64).collect();
+            let mut x = vec![0.0; n * p];
+            for i in 0..n {
+                x[i * p] = 1.0;
+            }
+            for j in 1..p {
+                let c: Vec<f64> = t.iter().map(|v| v.powi(j as i32)).collect();
+                let m = c.iter().sum::<f64>() / n as f64;
+                let sd = (c.iter().map(|v| (v - m) * (v - m)).sum::<f64>() / n as f64).sqrt();
+                for i in 0..n {
+                    x[i * p + j] = (c[i] - m) / sd;
+                }
+            }
+            let mut y: Vec<f64> = (0..n).map(|i| (b * r.powi(i as i32)).round()).collect();
+            for i in 0..n {
+                let extra = match bg {
+                    0 => 0.0,
+                    1 => if i % 7 == 6 { 1.0 } else { 0.0 },
+                    _ => if i % 5 == 4 || i + 3 == n { 1.0 + (i % 2) as f64 } else { 0.0 },
+                };
+                y[i] += extra;
+            }
+            if right {
+                y.reverse();
+            }
+            for fam in [Fam::Poisson, Fam::QuasiPoisson] {
+                for &tol in &[1e-5, 1e-8, 1e-12] {
+                    let inst = Inst { fam, x: x.clone(), n, p, y: y.clone(), w: None, off: None, alpha: 0.0, tol, design: "spiky-poly5" };
+                    let has_mle = inst.mle().is_some();
+                    if has_mle {
+                        run.nontrivial(1);
+                        run.regime("spiky-design-with-mle");
+                    }
+                    judge(run, &inst, 200, has_mle);
+                }
+            }
+        });
+        run.require_regime("spiky-design-with-mle");
+    }
     // reordering observations: every permutation of the rows of base instances
     let pn = run.tier.pick(5usize, 6usize);
     for &fam in &fams {
@@ -544,10 +614,10 @@ pub fn run(run: &Run) {
     for f in fams {
         run.require_regime(&format!("ok:{}", f.name()));
     }
-    for r in ["fit-reports-error", "standard-errors-ok", "permutation-invariant", "instance-with-mle"] {
+    for r in ["gaussian-coincides-with-least-squares", "fit-reports-error", "standard-errors-ok", "permutation-invariant", "instance-with-mle"] {
         run.require_regime(r);
     }
-    run.assume("score equations 'to within the convergence tolerance': Newton decrement² sᵀ(I+αD)⁻¹s ≤ 10·tol·(1+deviance) at the returned coefficients, evaluated in double-double");
+    run.assume("score equations 'to within the convergence tolerance': Newton decrement² sᵀ(I+αD)⁻¹s ≤ 10·tol·(1+deviance) at the returned coefficients, evaluated in double-double; for the Gaussian family (quadratic objective, 'coincides with least squares') the decrement² must be at rounding level, ≤ 1e-16·(1+Σw(y−offset)²), whatever the tolerance");
     run.assume("for weighted fits either the weighted or the unweighted family deviance is accepted; the dispersion is deviance/(Σw − p) for families with a dispersion parameter, 1 otherwise; standard errors use the unpenalised Fisher information at the returned coefficients (1e-3 relative)");
     run.assume("besides the exhaustive small lattice designs, designs with 20..500 rows and up to 6 pseudo-random / polynomial / indicator columns are covered on deterministic model-generated responses only");
 }
